@@ -120,17 +120,17 @@ TraceNext ==
               /\ UNCHANGED <<marked, marking>>
          [] e.a = "w" ->
               LET ps == Pages(e.ps)
-                  isIndex == Len(ps) = 1 /\ ps[1].t = "idx" IN
+                  isIndex == ps[1].t = "idx" IN      \* (a blob index of several pages: the first page carries the entries)
               /\ img' = WritePages(img, e.b, e.o, ps)
               /\ written' = written \cup
                     (IF isIndex THEN {[h |-> ps[1].es[i].h, seq |-> ps[1].es[i].seq, b |-> e.b,
                                        o |-> e.o + ps[1].es[i].off, len |-> ps[1].es[i].len] : i \in DOMAIN ps[1].es}
                      ELSE {})
               /\ bad' = (IF e.o + Len(ps) > BP THEN {<<"C07", "write_crosses_block_end">>} ELSE {})
-                        \cup (IF ~isIndex /\ \E j \in 1 .. Len(ps) : e.o + j - 1 < BP /\ Live(img, e.b, e.o + j - 1)
+                        \cup (IF \E j \in 1 .. Len(ps) : e.o + j - 1 < BP /\ Live(img, e.b, e.o + j - 1)
                               THEN {<<"C07", "write_over_live_entry">>, <<"C09", "block_rewritten_while_backing_entries">>} ELSE {})
               /\ UNCHANGED <<tpages, stored, last, acked>>
-              /\ fillOrder' = IF (Len(Pages(e.ps)) # 1 \/ Pages(e.ps)[1].t # "idx") /\ ~\E i \in DOMAIN fillOrder : fillOrder[i] = e.b
+              /\ fillOrder' = IF Pages(e.ps)[1].t # "idx" /\ ~\E i \in DOMAIN fillOrder : fillOrder[i] = e.b
                               THEN Append(fillOrder, e.b) ELSE fillOrder
               /\ UNCHANGED laterDel
               /\ ondev' = ondev \cup {Pages(e.ps)[j].v : j \in {j \in DOMAIN Pages(e.ps) : Pages(e.ps)[j].t = "ent"}}
@@ -158,6 +158,9 @@ TraceNext ==
                   sc == ConcatScans(img, BlockSeq(Blocks))
                   scanned == {sc[i] : i \in DOMAIN sc} IN
               /\ bad' = (IF scanned # written THEN {<<"C07", "scan_differs_from_written">>} ELSE {})
+                        \* every entry an intact blob index lists is backed by its intact data at the recorded position
+                        \cup (IF \E x \in scanned : LET en == EntryAt(img, x) IN ~en.ok \/ en.h # x.h \/ en.seq # x.seq
+                              THEN {<<"C07", "indexed_entry_not_backed_by_its_data">>} ELSE {})
                         \cup UNION {
                             LET k == KeySeq[i] IN
                             (IF e.res[i] # 0 /\ e.res[i] \notin stored[k] THEN {<<"C07", "load_returns_unstored_value", k>>} ELSE {})
